@@ -131,7 +131,6 @@ def plan(op, m):
                 t.insert(x)
                 out.append(x)
             mps = out
-        states = [m.points + [model.Model().points] * 0]
         states = []
         t = m.copy()
         states.append(copy.deepcopy(t.points))
